@@ -17,6 +17,7 @@ class WindowTellOperation(Node):
         super().__init__(name, position)
         self.operand: Optional[Node] = None
         self.statements: List[Statement] = []
+        self.closed: bool = False
 
     def generate_lingo(self, indentation: int) -> str: 
         op = cast(Node, self.operand)
